@@ -17,7 +17,7 @@ theorem Snap.lt_false_of_le {a b : Snap} (h : a.le b = true) : b.lt a = false :=
   · exact ⟨by omega, Or.inr (not_lt.mpr h2.le)⟩
   · exact ⟨by omega, Or.inr (by rw [h2]; exact lt_irrefl _)⟩
 
-theorem isort_sorted (l : List BcSnap) (h : sortedSnaps l = true) : sortBcSnap l = l := by
+theorem rs_isort_sorted (l : List BcSnap) (h : sortedSnaps l = true) : sortBcSnap l = l := by
   unfold sortBcSnap isort
   induction l with
   | nil => rfl
@@ -113,7 +113,7 @@ theorem reseat_eq_ref (thr : Rat) (hthr : 0 ≤ thr) (b0 : BcSnap) (rest : List 
     (hh : HypsL thr b0.bpm b0.met (distsOf b0 rest)) :
     reseat (b0 :: rest) thr = .ok (seatFromD thr 0 b0 (distsOf b0 rest)) := by
   unfold reseat
-  rw [isort_sorted _ hs]
+  rw [rs_isort_sorted _ hs]
   obtain ⟨os, hos, hch⟩ := relOffsets_chain rest 0 b0 hw
   have hmap : (distsOf b0 rest).map Prod.snd = rest := by
     clear hs hw hh hos hch
